@@ -5,7 +5,7 @@ other functions' blocks. Clause text is given without the leading '//@'."""
 import sys,re
 path,fn,where=sys.argv[1:4]; text=' '.join(sys.argv[4:])
 s=open(path).read()
-m=re.search(r'^//@ func %s\b.*$'%re.escape(fn), s, re.M)
+m=re.search(r'^//@ func %s(?=[ \t]|$).*$'%re.escape(fn), s, re.M)
 assert m, 'no contract for '+fn
 start=m.start()
 m2=re.search(r'^//@ (func|extern|spec|pred|lemma|axiom|order) ', s[m.end():], re.M)
